@@ -575,9 +575,17 @@ def r10_6(run):
     run.ob('R10.6', sv, sv.node, 'the current value becomes the pending value object', ok, slot='store-value', message='save stores %s' % [src(s_.value) for s_ in st])
 
 
+def r10_12(run):
+    """scalar options with their validated value: what save() hands to set_conf reaches the wire as that value - quoted and escaped
+    when it contains a blank or a quote, verbatim otherwise (Tor takes unquoted values literally).  Rule R12.1, shared"""
+    from . import c12
+    borrow(run, c12.r12_1, 'R10.12')
+
+
 RULES = [
     ('R10.7', 'setter post-condition: every assignment reaches unsaved[name] = value; every list value is wrapped for its own option', r10_7),
     ('R10.8', 'onion-service setters mark HiddenServices pending; the port list is tracked', r10_8),
+    ('R10.12', 'the value set_conf writes is the validated value: quoted+escaped iff it needs quoting, else verbatim (R12.1 borrowed)', r10_12),
     ('R10.9', 'name routing: config / parsers / unsaved are indexed only with _find_real_name results (R11.2 borrowed)', r10_9),
     ('R10.10', 'is_list_config_type evaluated per declared option type against what its parse() returns', r10_10),
     ('R10.11', 'sibling agreement of Boolean_Auto.parse / validate on the sign classes of the value (representatives -2..2)', r10_11),
